@@ -24,7 +24,7 @@ pub fn mon() -> Mon {
             "oversize bodies the encoder cannot frame are C04/C16's business and are skipped",
             "outputs of the raw trait-level control generator are judged only when the caller-supplied bytes form a control message the C09 reference accepts",
         ],
-        children: no_children,
+        children: rel_child_quarter,
     }
 }
 
